@@ -371,7 +371,6 @@ var hintClass = map[string]string{
 	"[x++ / x-- used as callee, object or index base] ":                                                                         "postfix-as-callee",
 	"[declaration as the body of if/while/for] ":                                                                                "declaration-in-single-statement",
 	"[decimal literal with a leading zero and a fraction/exponent] ":                                                            "leading-zero-float",
-	"[function parameter that is not an identifier] ":                                                                           "non-identifier-parameter",
 	"[line break before a backtick string: JavaScript continues the expression (tagged template), xjs starts a new statement] ": "newline-before-backtick",
 }
 
